@@ -53,6 +53,8 @@ func ZZ_C09_Cancel(sv *zzsv.T) {
 	})
 	e.SetContext(ctx)
 	sv.Assume(e.Prepare() == nil)
+	// from here on the run has to end: the context is done at poll K at the latest
+	sv.MustTerminate("C09.stops", 4)
 	useRun := sv.Choice("api", 2) == 1
 	var err error
 	if useRun {
